@@ -12,6 +12,10 @@
 // wrapped system call costs 1 us, a sleeping poll its timeout, and a parent that spins (identical poll rounds that return
 // at once, nothing done in between, child unable to move) is fast-forwarded to the expiry of its timeout and beyond.
 // A further environment dimension (round 3): the caller's own descriptors 0/1/2, any subset closed.
+// Round 5: signal traffic in the calling process at fixed virtual times (never / once / one every period from a ladder
+// around run_process' 1000 ms poll interval, several phases each): a sleep of the parent into which a signal falls ends
+// with EINTR at exactly the signal's time; children may sleep until a virtual time (T steps); "a timeout ends the child"
+// has an upper bound (timeout + slack of virtual time), beyond which the execution is stopped and reported.
 // One scenario is a HISTORY of one to five calls made in the same process, each with its own scripted child.
 #include "C15_proc.hh"
 #include "C15_explore.hh"
@@ -23,7 +27,40 @@ struct Scenario {
   std::string name;
   std::vector<Call> calls;
   int bound_quick, bound_thorough;
+  std::string group = "";  // evidence counter under which the executions are summed (default: the scenario's own name)
+  unsigned slices = 0;     // 0: by the deviation bound (1/4/16); the round-5 scenarios have small trees and run as one slice
 };
+
+// ---- Round 5: signals in the calling process at fixed virtual times ---------------------------------------------------
+// Period ladder 1 ms, 10 ms, 100 ms, 999 ms, 1000 ms, 1001 ms, 5 s (run_process polls with a 1000 ms timeout); for each
+// period every phase of {1 us, half a period, period - 1 us, and the three phases that put a signal 1 us before / exactly
+// at / 1 us after the reference time `ref` (the expiry of the timeout, or the child's own exit time when there is no
+// timeout)}; "once": a single signal 1 us / ref/2 / ref - 1 ms / ref + 1 ms / ref + 500 ms after the call began; never.
+struct SigMode { bool on; uint64_t period, phase; };
+const uint64_t kSigPeriods[] = {1000, 10000, 100000, 999000, 1000000, 1001000, 5000000};
+std::vector<SigMode> sig_modes(uint64_t ref) {
+  std::vector<SigMode> m;
+  m.push_back({false, 0, 0});
+  std::set<uint64_t> once = {1, ref / 2, ref > 1000 ? ref - 1000 : 0, ref + 1000, ref + 500000};
+  once.erase(0);
+  for (uint64_t ph : once) m.push_back({true, 0, ph});
+  for (uint64_t p : kSigPeriods) {
+    std::set<uint64_t> phases = {1, p / 2, p - 1, (ref + p - 1) % p, ref % p, (ref + 1) % p};
+    for (uint64_t ph : phases) m.push_back({true, p, ph});
+  }
+  return m;
+}
+std::string sig_name(const SigMode& m) {
+  if (!m.on) return "no signals";
+  if (!m.period) return vf::fmt("one signal at %llu us", (unsigned long long)m.phase);
+  return vf::fmt("signals every %llu us from %llu us", (unsigned long long)m.period, (unsigned long long)m.phase);
+}
+// a child that writes one byte to stdout every `every` us until `until`, then does `last`
+std::vector<Step> ticking(std::vector<Step> sc, uint64_t every, uint64_t until, Step last) {
+  for (uint64_t t = every; t <= until; t += every) { sc.push_back({ST_T, (int64_t)t}); sc.push_back({ST_W1, 1}); }
+  sc.push_back(last);
+  return sc;
+}
 
 Call mk(Api api, bool has_stdin, size_t payload, std::vector<Step> script, bool check, uint64_t timeout, bool reads_to_eof, int want, int variant = 0, int ctx = 0) {
   Call c;
@@ -43,6 +80,88 @@ std::vector<Step> chunked(size_t payload, size_t chunk, int code) {
   sc.push_back({ST_RALL, 0});
   sc.push_back({ST_X, code});
   return sc;
+}
+
+// Round 5: every blocking call of the parent x {never, one signal, periodic signals from the ladder x phases} x children whose
+// behaviour depends on (virtual) time x {run_process with a timeout, communicate with a deadline, Subprocess wait/kill
+// paths} x timeout ladder {0, 1 us, 1 ms, 1 s, 5 s, (2^31 + 1000) ms, 2^32 ms}.
+void signal_scenarios(std::vector<Scenario>& v, bool thorough) {
+  const int64_t MS = 1000, S = 1000000;
+  struct Kid { std::string name; std::vector<Step> script; bool has_stdin; size_t payload; bool reads_to_eof; int want; bool may_time_out; bool heavy; };
+  auto emit = [&](const std::string& fam, Api api, uint64_t timeout, const Kid& k, uint64_t ref) {
+    for (auto& m : sig_modes(ref)) {
+      Call c = mk(api, api == API_COMM || k.has_stdin, k.payload, k.script, false, timeout, k.reads_to_eof, k.want);
+      c.may_time_out = k.may_time_out;
+      c.sig_mode = m.on; c.sig_period = m.period; c.sig_phase = m.phase;
+      // executions under 1 ms / 10 ms signals make thousands of system calls each: no child-runs-ahead deviations in quick
+      bool dense = m.on && m.period && m.period <= 10000 && (ref >= 1000000 || k.heavy);
+      int bq = dense || k.heavy ? 0 : 1, bt = dense ? (k.heavy ? 0 : 1) : (k.heavy ? 1 : 2);
+      std::string group = vf::fmt("sig: %s: child %s; timeout %llu us", fam.c_str(), k.name.c_str(), (unsigned long long)timeout);
+      v.push_back({group + "; " + sig_name(m), {std::move(c)}, bq, bt, group + " (x signal modes)", 1});
+    }
+  };
+  // a child that "never stops talking" keeps ticking until after the latest moment at which an overrun is reported
+  // (timeout + 20 s + 2 periods of at most 5 s + the system-call allowance of less than 1 s)
+  const uint64_t TICK_ON = TIMEOUT_SLACK + 2 * 5 * S + 2 * S;
+  const uint64_t HUGE1 = ((1ull << 31) + 1000) * 1000, HUGE2 = (1ull << 32) * 1000;  // timeouts above INT_MAX milliseconds
+  for (uint64_t T : {(uint64_t)1, (uint64_t)MS, (uint64_t)S, (uint64_t)(5 * S)}) {
+    int64_t D = (int64_t)T;
+    bool big = T >= (uint64_t)S;
+    // ---- run_process with a timeout ----
+    std::vector<Kid> run_kids = {
+      {"writes 9 bytes, then silent forever", {{ST_W1, 9}, {ST_Z, 0}}, false, 0, false, -1, false, false},
+      {"ignores SIGTERM, silent forever (SIGKILL must follow)", {{ST_I, SIGTERM}, {ST_Z, 0}}, false, 0, false, -1, false, false},
+      {"silent, exits 2 ms after the timeout expires", {{ST_W1, 4}, {ST_T, D + 2 * MS}, {ST_W2, 2}, {ST_X, 3}}, false, 0, false, W(3), true, false},
+      {"closes stdout and stderr, stays alive", {{ST_W1, 10}, {ST_W2, 7}, {ST_C, 1}, {ST_C, 2}, {ST_Z, 0}}, false, 0, false, -1, false, false},
+      {"one byte every 300 ms, never exits", ticking({}, 300 * MS, T + TICK_ON, {ST_Z, 0}), false, 0, false, -1, false, true},
+    };
+    if (big) run_kids.push_back({"silent, exits 2 ms before the timeout expires", {{ST_W1, 4}, {ST_T, D - 2 * MS}, {ST_W2, 2}, {ST_X, 3}}, false, 0, false, W(3), false, false});
+    if (thorough) run_kids.push_back({"silent forever, payload 3 never read", {{ST_Z, 0}}, true, 3, false, -1, false, false});
+    for (auto& k : run_kids) emit("run", API_RUN, T, k, T);
+    // ---- Subprocess::communicate with a deadline ----
+    std::vector<Kid> comm_kids = {
+      {"reads all, writes 10 bytes, then silent forever", {{ST_RALL, 0}, {ST_W1, 10}, {ST_Z, 0}}, true, 10, true, -1, false, false},
+      {"silent, exits 2 ms after the deadline", {{ST_RALL, 0}, {ST_W1, 10}, {ST_T, D + 2 * MS}, {ST_W1, 2}, {ST_X, 3}}, true, 10, true, W(3), true, false},
+      {"closes stdout, lingers, exits 2 ms after the deadline (parent blocks in waitpid)", {{ST_RALL, 0}, {ST_W1, 10}, {ST_C, 1}, {ST_T, D + 2 * MS}, {ST_X, 5}}, true, 10, true, W(5), true, false},
+      {"one byte every 300 ms, never exits", ticking({{ST_RALL, 0}}, 300 * MS, T + TICK_ON, {ST_Z, 0}), true, 10, true, -1, false, true},
+    };
+    if (big) {
+      comm_kids.push_back({"silent, exits 2 ms before the deadline", {{ST_RALL, 0}, {ST_W1, 10}, {ST_T, D - 2 * MS}, {ST_W1, 2}, {ST_X, 3}}, true, 10, true, W(3), false, false});
+      comm_kids.push_back({"closes stdout, lingers, exits 2 ms before the deadline (parent blocks in waitpid)", {{ST_RALL, 0}, {ST_W1, 10}, {ST_C, 1}, {ST_T, D - 2 * MS}, {ST_X, 5}}, true, 10, true, W(5), false, false});
+    }
+    for (auto& k : comm_kids) emit("comm", API_COMM, T, k, T);
+  }
+  // ---- no timeout, and timeouts above INT_MAX milliseconds: the child ends on its own after 3 s ----
+  for (uint64_t T : {(uint64_t)0, HUGE1, HUGE2}) {
+    std::vector<Kid> run_kids = {
+      {"silent for 3 s, then writes and exits 3", {{ST_W1, 4}, {ST_T, 3 * S}, {ST_W2, 2}, {ST_X, 3}}, false, 0, false, W(3), false, false},
+      {"one byte every 300 ms for 3 s, then exits 0", ticking({}, 300 * MS, 3 * S, {ST_X, 0}), false, 0, false, 0, false, true},
+    };
+    for (auto& k : run_kids) emit("run", API_RUN, T, k, 3 * S);
+    std::vector<Kid> comm_kids = {
+      {"silent for 3 s, then writes and exits 3", {{ST_RALL, 0}, {ST_W1, 10}, {ST_T, 3 * S}, {ST_W1, 2}, {ST_X, 3}}, true, 10, true, W(3), false, false},
+      {"closes stdout, lingers for 3 s, exits 5 (parent blocks in waitpid)", {{ST_RALL, 0}, {ST_W1, 10}, {ST_C, 1}, {ST_T, 3 * S}, {ST_X, 5}}, true, 10, true, W(5), false, false},
+      {"one byte every 300 ms for 3 s, then exits 0", ticking({{ST_RALL, 0}}, 300 * MS, 3 * S, {ST_X, 0}), true, 10, true, 0, false, true},
+    };
+    for (auto& k : comm_kids) emit("comm", API_COMM, T, k, 3 * S);
+  }
+  // ---- Subprocess wait / kill / destructor paths ----
+  struct LifeKid { void (*body)(Life&); const char* body_name; std::string name; std::vector<Step> script; size_t payload; };
+  std::vector<LifeKid> lives = {
+    {life_close_stdin_wait, "close(sp.stdin_fd()); sp.wait()", "close stdin, blocking wait(); child exits 2 after 2 s", {{ST_RALL, 0}, {ST_W1, 10}, {ST_T, 2 * S}, {ST_X, 2}}, 0},
+    {life_poll_wait, "sp.wait(true) x4; sp.wait(); sp.wait(true)", "wait(true) x4, wait(), wait(true); child exits 5 after 2 s", {{ST_T, 2 * S}, {ST_X, 5}}, 0},
+    {life_destroy_running, "{ Subprocess sp(cmd); }", "destroy while the child hangs", {{ST_W1, 5}, {ST_Z, 0}}, 0},
+    {life_kill_then_wait, "sp.kill(SIGTERM); sp.wait() x3", "kill(SIGTERM), wait() x3; child hangs", {{ST_W1, 5}, {ST_Z, 0}}, 0},
+    {life_move_ctor, "Subprocess b(std::move(a)); ~a; b.communicate(); b.wait()", "move-construct, communicate, wait; child exits 4 after 2 s", {{ST_RALL, 0}, {ST_W1, 20}, {ST_T, 2 * S}, {ST_W1, 3}, {ST_X, 4}}, 10},
+  };
+  for (auto& lk : lives)
+    for (auto& m : sig_modes(2 * S)) {
+      Call c = life(lk.body, lk.body_name, lk.script, lk.payload);
+      c.sig_mode = m.on; c.sig_period = m.period; c.sig_phase = m.phase;
+      bool dense = m.on && m.period && m.period <= 10000;
+      std::string group = "sig: life: " + lk.name;
+      v.push_back({group + "; " + sig_name(m), {std::move(c)}, dense ? 0 : 1, dense ? 1 : 2, group + " (x signal modes)", 1});
+    }
 }
 
 std::vector<Scenario> scenarios(bool thorough) {
@@ -263,6 +382,18 @@ std::vector<Scenario> scenarios(bool thorough) {
     v.push_back({"hist: comm small with fds 0,1 closed, run small with fd 0 closed, comm small", {c_small_no01, r_small_no0, c_small}, 1, 2});
     v.push_back({"hist: run child closes both streams and hangs (timeout), run small, the same again", {r_closed_hang, r_small, r_closed_hang}, 1, 2});
   }
+  {
+    // Round 5 histories: calls under periodic signals followed by calls without (and back)
+    Call r_sig_hang = mk(API_RUN, false, 0, {{ST_W1, 9}, {ST_Z, 0}}, false, 1000000, false, -1);
+    r_sig_hang.sig_mode = true; r_sig_hang.sig_period = 100000; r_sig_hang.sig_phase = 1;
+    Call c_sig_hang = mk(API_COMM, true, 10, {{ST_RALL, 0}, {ST_W1, 10}, {ST_Z, 0}}, false, 1000000, true, -1);
+    c_sig_hang.sig_mode = true; c_sig_hang.sig_period = 10000; c_sig_hang.sig_phase = 5000;
+    Call r_sig_small = r_small;
+    r_sig_small.sig_mode = true; r_sig_small.sig_period = 1000; r_sig_small.sig_phase = 0;
+    v.push_back({"hist: run timeout under 100 ms signals, run small, comm deadline under 10 ms signals, comm small", {r_sig_hang, r_small, c_sig_hang, c_small}, 1, 1});
+    v.push_back({"hist: comm deadline under 10 ms signals, run small under 1 ms signals, run timeout under 100 ms signals", {c_sig_hang, r_sig_small, r_sig_hang}, 1, 1});
+  }
+  signal_scenarios(v, thorough);
   return v;
 }
 
@@ -271,7 +402,7 @@ unsigned slices_for(int bound) { return bound <= 0 ? 1 : bound == 1 ? 4 : 16; }
 std::string describe(const Scenario& sc, int bound) {
   std::string s = sc.name + " :: ";
   for (size_t i = 0; i < sc.calls.size(); i++) s += (i ? " ; THEN " : "") + describe_call(sc.calls[i]);
-  s += vf::fmt("; environment answers: child runs {0,1,2,all} steps ahead at each parent waitpid/poll/read/write, EINTR where the parent would sleep (and at run_process' non-blocking read/write), <=%d non-default answers per execution", bound);
+  s += vf::fmt("; environment answers: child runs {0,1,2,all} steps ahead at each parent waitpid/poll/read/write, EINTR where the parent would sleep (and at run_process' non-blocking read/write; not when signals arrive at fixed times: those alone interrupt every sleep they fall into), <=%d non-default answers per execution", bound);
   return s;
 }
 
@@ -289,7 +420,7 @@ VF_SECTION(schedules, 16, 16, 300) {
   uint64_t nscen = 0;
   for (auto& sc : scs) {
     int bound = r.thorough() ? sc.bound_thorough : sc.bound_quick;
-    unsigned ns = slices_for(bound);
+    unsigned ns = sc.slices ? sc.slices : slices_for(bound);
     nscen++;
     for (unsigned slice = 0; slice < ns; slice++) {
       if (!r.take()) continue;
@@ -299,6 +430,10 @@ VF_SECTION(schedules, 16, 16, 300) {
       int amb = r.ambient_errno();
       std::set<int> fds_before = list_fds();
       bool fd_table_changed = false;
+      // the explorer's own horizon on choice points (default 20000) follows the cap on system calls (<= 2 choice points each)
+      size_t cap = SYSCALL_CAP;
+      for (auto& c : sc.calls) cap = std::max(cap, syscall_cap_for(c));
+      g_env.horizon = std::max<size_t>(20000, 2 * cap * sc.calls.size() + 1000);
       auto run_once = [&]() -> Outcome {
         r.beat();
         Outcome o;
@@ -320,8 +455,16 @@ VF_SECTION(schedules, 16, 16, 300) {
       r.states += st.executions;
       r.transitions += st.choice_points;
       r.counters["executions"] += st.executions;
-      r.counters["executions: " + sc.name] += st.executions;
+      r.counters["executions: " + (sc.group.empty() ? sc.name : sc.group)] += st.executions;
       if (slice == 0) r.counters["scenarios"]++;
+      if (g_sig_stats.calls_with_signals) {
+        r.counters["signals: calls executed under a signal schedule"] += g_sig_stats.calls_with_signals;
+        r.counters["signals: calls in which at least one sleep was interrupted (EINTR at the signal's time)"] += g_sig_stats.calls_interrupted;
+        r.counters["signals: EINTR answers given"] += g_sig_stats.eintr_answers;
+        r.counters["signals: calls in which the child was ended by the parent (timeout, destructor, kill)"] += g_sig_stats.ended_by_timeout;
+        r.counters["signals: calls in which the child ended on its own"] += g_sig_stats.ended_on_their_own;
+      }
+      g_sig_stats = SigStats();
       r.nontriv();
       if (fd_table_changed) r.fail("engine:descriptor-table-not-restored", [&] { return describe(sc, bound); });
       if (!st.complete && st.found.empty()) { r.exhaustive = false; r.ok("execution-cap-hit"); continue; }
